@@ -136,7 +136,8 @@ def run(ctx):
     sreq = []; sexp = []
     for l in lists:
         stuff = [dict(discipline=c, n=i) for i, c in enumerate(l)]
-        extra = [dict(n=-1)] if rng.random() < 0.3 else []                  # a missing discipline
+        # a missing discipline, in the forms it arrives in: no key, JSON null, empty text
+        extra = rng.choice([[dict(n=-1)], [dict(discipline=None, n=-2)], [dict(discipline='', n=-3)], [dict(n=-1), dict(discipline=None, n=-2)]]) if rng.random() < 0.4 else []
         st, res = call(athlib.sort_by_discipline, stuff + extra)
         if st != 'ok':
             ctx.fail('athlib.sort_by_discipline', [l], 'a sorted list', st, note='sorter raises'); continue
